@@ -963,7 +963,25 @@ def rule_scan_takes_outputs_in_order(ctx: Ctx, rep: Report) -> None:
     rep.floor(rule, 2)
 
 
+def rule_schnorr_key_range_on_both_arms(ctx: Ctx, rep: Report) -> None:
+    """C04.schnorr_key_range_on_both_arms: the bindings refuse a BIP340 key outside the
+    field with a ValueError the caller turns into False; on the Python arm the
+    lift (`_y_even_var`) is that range check and comes before the key is
+    written at a fixed width (C03.verify_range, reported here) -- else an
+    integer key of 2**256 or more is an OverflowError without the bindings and
+    False with them."""
+    from rules import C03
+    tmp = Report("C03", rep.tier)
+    tmp.quiet = True
+    C03.rule_verify_range(ctx, tmp)
+    for o in tmp.obs:
+        rep.ob("C04.schnorr_key_range_on_both_arms", o.instance, o.held, o.site, o.detail)
+    rep.floor("C04.schnorr_key_range_on_both_arms", 1)
+
+
 RULES = [
+    ("C04.schnorr_key_range_on_both_arms", rule_schnorr_key_range_on_both_arms),
+
     ("C04.scan_takes_outputs_in_order", rule_scan_takes_outputs_in_order),
 
     ("C04.dispatch_honours_flags", rule_dispatch_honours_flags),
